@@ -49,10 +49,12 @@ def main():
         rc, out = sh("%s -m pytest -q -p no:cacheprovider 2>&1 | tail -3" % PY, cwd=scratch, env={"PYTHONPATH": scratch + "/py34"})
         res["suite_with_change"] = out.strip().splitlines()[-1] if out.strip() else "?"
         suite_ok = " passed" in out and " failed" not in out and " error" not in out
-        shutil.copy(demo, scratch + "/demo.py")
-        shutil.copy(demo, clean + "/demo.py")
-        rc_c, out_c = sh("%s demo.py" % PY, cwd=clean, env={"PYTHONPATH": clean + "/py34:" + clean}, timeout=600)
-        rc_m, out_m = sh("%s demo.py" % PY, cwd=scratch, env={"PYTHONPATH": scratch + "/py34:" + scratch}, timeout=600)
+        # the demos were written to live in <tree>/out/ (some reach ../tests for the suite's helpers)
+        for d in (scratch, clean):
+            os.makedirs(d + "/out")
+            shutil.copy(demo, d + "/out/demo.py")
+        rc_c, out_c = sh("%s demo.py" % PY, cwd=clean + "/out", env={"PYTHONPATH": clean + "/py34:" + clean}, timeout=600)
+        rc_m, out_m = sh("%s demo.py" % PY, cwd=scratch + "/out", env={"PYTHONPATH": scratch + "/py34:" + scratch}, timeout=600)
         res["demo_without_change"] = "exit %d: %s" % (rc_c, out_c.strip()[-200:])
         res["demo_with_change"] = "exit %d: %s" % (rc_m, out_m.strip()[-300:])
         demo_ok = rc_c == 0 and rc_m != 0
